@@ -420,6 +420,9 @@ def compare(interp, op, a, b, st, node):
     term = T(name, a.term, b.term)
     if a.kind == "arr" or b.kind == "arr":
         shape = broadcast(interp, sa, sb, st, node, what=name)
+        if not hasattr(interp, "cmp_info"):
+            interp.cmp_info = {}
+        interp.cmp_info[term] = (name, a, b)
         return V("arr", term, shape=shape, orig=frozenset([FRESH]), labels=labels, loc=fresh_id(), extra="bool")
     return vbool(term, labels)
 
@@ -571,6 +574,12 @@ def _canon_index(interp, base, idx):
                 continue
             lo0 = lo.kind == "none" or (lo.has_const and lo.const == 0)
             st1 = step.kind == "none" or (step.has_const and step.const == 1)
+            if step.kind == "none" and ((lo.has_const and lo.const == -1 and hi.kind == "none") or (lo0 and hi.has_const and hi.const == 1 and not (d.is_const() and d.c == 1))):
+                # a[-1:] / a[:1] : one element, unit axis kept
+                e = vconst(-1) if (lo.has_const and lo.const == -1) else vconst(0)
+                out.append(V("slice1", T("slice1", e.term), items=[e], labels=it.labels))
+                changed = True
+                continue
             hid = None
             if hi.kind == "none":
                 hid = d
@@ -631,6 +640,17 @@ def subscript(interp, base, idx, st, node):
     if base.kind == "arr" and base.shape is not None and idx.kind == "diagidx" and len(base.shape) == 2:
         # a[np.diag_indices_from(a)] is the diagonal
         return V("arr", T("diagof", base.term), shape=(interp.order.dmin(base.shape[0], base.shape[1]),), orig=frozenset([FRESH]), labels=labels, loc=fresh_id())
+    if base.kind == "arr" and base.shape is not None and idx.kind == "tuple" and idx.items is not None and any(it.kind == "none" for it in idx.items) and not all(it.kind == "none" or (it.kind == "slice" and all(x.kind == "none" for x in it.items)) for it in idx.items) and not any(it.kind == "ellipsis" for it in idx.items):
+        # a[None, :, 0]: index first, insert the unit axes afterwards
+        sh = index_shape(interp, base, idx, st, node)
+        rest = [it for it in idx.items if it.kind != "none"]
+        if sh is not None and rest:
+            ridx = rest[0] if len(rest) == 1 else V("tuple", T("tuple", *[x.term for x in rest]), items=rest, labels=idx.labels)
+            inner = subscript(interp, base, ridx, st, node)
+            if inner.kind == "arr":
+                from .api_numpy import shape_terms
+
+                return V("arr", T("reshape1", inner.term, *shape_terms(sh)), shape=sh, orig=inner.orig, labels=inner.labels, loc=inner.loc, extra=inner.extra if isinstance(inner.extra, str) else None)
     if base.kind == "arr" and base.shape is not None:
         idx = _canon_index(interp, base, idx)
         if idx is None:
